@@ -1,0 +1,106 @@
+//go:build verif
+
+package uasc
+
+import (
+	"encoding/binary"
+
+	"github.com/gopcua/opcua/ua"
+	"github.com/gopcua/opcua/uapolicy"
+)
+
+// This file is compiled into verification builds only (build tag verif). It
+// contains thin wrappers which expose unexported code of this package to the
+// runtime monitors in /verif. It has no logic of its own.
+
+// VerifInstance is a channel instance which is not attached to a connection.
+type VerifInstance struct {
+	ci *channelInstance
+}
+
+// VerifNewInstance creates a detached channel instance which uses the given algorithm.
+func VerifNewInstance(cfg *Config, algo *uapolicy.EncryptionAlgorithm, channelID, tokenID, seqNr uint32) *VerifInstance {
+	sc := &SecureChannel{cfg: cfg}
+	ci := newChannelInstance(sc)
+	ci.algo = algo
+	ci.secureChannelID = channelID
+	ci.securityTokenID = tokenID
+	ci.sequenceNumber = seqNr
+	return &VerifInstance{ci: ci}
+}
+
+// SetMaximumBodySize calls the real SetMaximumBodySize and returns the result.
+func (v *VerifInstance) SetMaximumBodySize(chunkSize int) uint32 {
+	v.ci.SetMaximumBodySize(chunkSize)
+	return v.ci.maxBodySize
+}
+
+// MaxBodySize returns the current maximum body size.
+func (v *VerifInstance) MaxBodySize() uint32 { return v.ci.maxBodySize }
+
+// NewMessage calls the real newMessage.
+func (v *VerifInstance) NewMessage(svc interface{}, typeID uint16, reqID uint32) *Message {
+	return v.ci.newMessage(svc, typeID, reqID)
+}
+
+// NextSequenceNumber calls the real nextSequenceNumber.
+func (v *VerifInstance) NextSequenceNumber() uint32 { return v.ci.nextSequenceNumber() }
+
+// SequenceNumber returns the last sequence number used.
+func (v *VerifInstance) SequenceNumber() uint32 { return v.ci.sequenceNumber }
+
+// EncodeAndSecure performs the steps of writeMessageChunks without the socket write:
+// EncodeChunks with the instance's maximum body size, sequence numbers for the
+// subsequent chunks, signAndEncrypt for every chunk.
+func (v *VerifInstance) EncodeAndSecure(m *Message) ([][]byte, error) {
+	chunks, err := m.EncodeChunks(v.ci.maxBodySize)
+	if err != nil {
+		return nil, err
+	}
+	for i, chunk := range chunks {
+		if i > 0 {
+			number := v.ci.nextSequenceNumber()
+			binary.LittleEndian.PutUint32(chunk[16:], uint32(number))
+		}
+		chunk, err = v.ci.signAndEncrypt(m, chunk)
+		if err != nil {
+			return nil, err
+		}
+		chunks[i] = chunk
+	}
+	return chunks, nil
+}
+
+// SignAndEncrypt calls the real signAndEncrypt.
+func (v *VerifInstance) SignAndEncrypt(m *Message, b []byte) ([]byte, error) {
+	return v.ci.signAndEncrypt(m, b)
+}
+
+// VerifyAndDecrypt decodes the chunk headers like readChunk does and calls the real
+// verifyAndDecrypt followed by the sequence header decoding of readChunk.
+func (v *VerifInstance) VerifyAndDecrypt(b []byte) (*MessageChunk, error) {
+	m := new(MessageChunk)
+	if _, err := m.Decode(b); err != nil {
+		return nil, err
+	}
+	data, err := v.ci.verifyAndDecrypt(m, b)
+	if err != nil {
+		return nil, err
+	}
+	m.Data = data
+	n, err := m.SequenceHeader.Decode(m.Data)
+	if err != nil {
+		return nil, err
+	}
+	m.Data = m.Data[n:]
+	return m, nil
+}
+
+// VerifMergeChunks calls the real mergeChunks.
+func VerifMergeChunks(chunks []*MessageChunk) ([]byte, error) { return mergeChunks(chunks) }
+
+// VerifDecodeService decodes a merged message body like Receive does.
+func VerifDecodeService(b []byte) (interface{}, error) {
+	_, svc, err := ua.DecodeService(b)
+	return svc, err
+}
